@@ -95,7 +95,7 @@ func init() {
 			defer func() {
 				if r := recover(); r != nil {
 					gp, ok := r.(*GoPanic)
-					if !ok || strings.HasPrefix(gp.Msg, "VERIF-") {
+					if !ok || (strings.HasPrefix(gp.Msg, "VERIF-") && !strings.HasPrefix(gp.Msg, "VERIF-ALLOC")) {
 						panic(r)
 					}
 					x.stack = x.stack[:depth]
